@@ -5,7 +5,7 @@ import (
 )
 
 // StatusCodes a handler may send on purpose.
-var StatusCodes = []int{200, 201, 204, 301, 404, 418, 500}
+var StatusCodes = []int{200, 201, 204, 301, 404, 418, 500, 103, 100}
 
 // BadCodes are refused by the underlying writer (as net/http does).
 var BadCodes = []int{0, 99, 1000, -1}
@@ -183,6 +183,7 @@ func GenRequests(g *tape.Stream, fg *tape.Stream, s *Setup, p *Profile) [][]*Req
 				if fg.Chance(p.WFaultPm) {
 					q.WPlan = append(q.WPlan, WFault{At: fg.Intn(3), Kind: 1 + fg.Intn(2), Keep: fg.Intn(6)})
 				}
+				q.CtxErr = fg.Weighted(3, 2, 1)
 				if !AutoMode && fg.Chance(p.CancelPm) {
 					q.PlannedCancel = fg.Intn(40)
 				}
@@ -203,7 +204,7 @@ func CloneForTwin(in [][]*Req) [][]*Req {
 	out := make([][]*Req, len(in))
 	for i := range in {
 		for _, r := range in[i] {
-			c := &Req{ID: r.ID, Name: r.Name, Chain: r.Chain, Body: r.Body, Method: r.Method, Path: r.Path, Query: r.Query, Hdr: r.Hdr, Progs: r.Progs, Rets: r.Rets,
+			c := &Req{ID: r.ID, Name: r.Name, Chain: r.Chain, Body: r.Body, CtxErr: r.CtxErr, Method: r.Method, Path: r.Path, Query: r.Query, Hdr: r.Hdr, Progs: r.Progs, Rets: r.Rets,
 				WPlan: r.WPlan, Flusher: r.Flusher, Tag: r.Tag}
 			c.PlannedCancel = r.PlannedCancel
 			if r.AsyncCancelAt >= 0 {
